@@ -1027,14 +1027,31 @@ def with_callable_object(x):
     return x
 
 
+@icontract.require(lambda value, *, min=0, max=10: min <= value <= max)
+def clamped(value):
+    return value
+
+
+lo = "left over from a loop at module level"
+
+
+@icontract.require(lambda x, *, lo=3: lo is not None and x >= lo)
+@icontract.ensure(lambda result, *, len=4: result < len, error=lambda result: KeyError(result))
+def above(x):
+    return x
+
+
 make_with_unbound_closure_variable()
+attempt("keyword-only-defaults-named-like-builtins", lambda: clamped(50))
+attempt("keyword-only-default-named-like-a-global", lambda: above(1))
 attempt("callee-equal-to-everything-over-a-generator", lambda: g([1, 2]))
 attempt("condition-given-as-a-partial", lambda: with_partial(50))
 attempt("condition-given-as-a-callable-object", lambda: with_callable_object(50))
 attempt("satisfied-partial-and-callable-object", lambda: (with_partial(5), with_callable_object(5)))
 '''
 
-CORNER_TEXTS = {"unbound-closure-variable-not-evaluated": "x > 0 and helper(x)", "closure-variable-bound-later": "x > 0 and helper(x)",
+CORNER_TEXTS = {"keyword-only-defaults-named-like-builtins": "min <= value <= max", "keyword-only-default-named-like-a-global": "lo is not None and x >= lo",
+                "unbound-closure-variable-not-evaluated": "x > 0 and helper(x)", "closure-variable-bound-later": "x > 0 and helper(x)",
                 "callee-equal-to-everything-over-a-generator": "agreeable(x > 0 for x in xs)",
                 # (a condition which is no function has no source text of its own: only the kind of the error is demanded)
                 "condition-given-as-a-partial": "", "condition-given-as-a-callable-object": "", "satisfied-partial-and-callable-object": None}
